@@ -184,6 +184,36 @@ func exclusiveC10(c *Ctx) {
 	}
 	P := c.P
 	q := a.call
+	// 0. "wait <= 0 is ignored": the runner sleeps only when the item's wait is positive. (item.wait - time.Since(ts)
+	// wraps around for a wait near the minimum Duration - e.g. time.Time{}.Sub(time.Now()) - and would sleep ~292 years
+	// with the key occupied: that call, and every later one for the key, would never be answered.)
+	{
+		r := a.runner
+		sleeps := P.CallsTo(r.fn, "time.Sleep")
+		var waitLd ssa.Value
+		for _, in := range an.AllInstrs(r.fn, func(in ssa.Instruction) bool {
+			u, ok := in.(*ssa.UnOp)
+			return ok && u.Op == token.MUL && an.FieldOfAddr(u.X) == "exclusiveItem.wait"
+		}) {
+			waitLd = in.(*ssa.UnOp)
+		}
+		if len(sleeps) == 0 {
+			r.add("COND", "the runner sleeps only for a positive wait", true, "the runner never sleeps")
+		} else if waitLd == nil {
+			r.undecided("COND", "the runner sleeps only for a positive wait", "the runner sleeps but never reads item.wait", sleeps[0])
+		} else {
+			wl := P.Lin(waitLd)
+			for _, sl := range sleeps {
+				got := P.PathCond(r.fn, nil, sl, keepForms(wl))
+				ok := len(got) > 0
+				if ok {
+					ok, _ = an.ImpliesDNF(got, an.DNF{conj(lit(wl, an.SPos))})
+				}
+				r.add("COND", "the runner sleeps only for a positive wait", ok,
+					pickS(ok, "time.Sleep is reached only where item.wait > 0 was established", "time.Sleep is reachable without item.wait > 0 having been tested: the remaining-wait subtraction wraps around for a wait near the minimum Duration and the runner would sleep for centuries holding the key; paths: "+got.String()), sl)
+			}
+		}
+	}
 	// 1. attach only to the item currently in the map
 	eqIfs, negs := P.IfsOn(q.fn, func(cond ssa.Value) bool {
 		b, ok := cond.(*ssa.BinOp)
